@@ -208,6 +208,8 @@ func (env *SEnv) call(e *SExpr) *SVal {
 		return &SVal{T: u.rsaPubAbs(env.cur, x.T)}
 	case "epoch":
 		return &SVal{T: u.comp(env.cur, "epoch")}
+	case "vepoch":
+		return &SVal{T: u.comp(env.cur, "vepoch")}
 	case "typeid":
 		x := env.eval(e.Args[0])
 		return &SVal{T: App(SInt, "any_typeid", x.T)}
